@@ -30,7 +30,7 @@
                   Struct, ListValue, Value, FieldMask, Empty: Json/JsonWktValid.v) -- a decidable check
                   that the real descriptors pass; all special mappings are inside the proved part;
      [codec_ok]   the string forms owned by other properties enter as round-trip hypotheses on the codec:
-                  base64 (C22) -- proved for the executable codec, Json/JsonB64P.v -- and the Timestamp /
+                  base64 (C22) -- proved for the executable codec, Json/JsonB64RtP.v -- and the Timestamp /
                   Duration strings (C23: parse (format s n) = (s, n) on the range Marshal accepts);
      floats are strconv-relative (NF32/NF64 nodes), lexing is by composition with C21.
    C20_json_marshal_fails_only_when_partial: representable content never makes Marshal fail (core);
@@ -52,7 +52,7 @@ Theorem C20_json_roundtrip_except_F11_partial :
 Proof. exact json_roundtrip_wkt_except_F11_partial. Qed.
 Print Assumptions C20_json_roundtrip_except_F11_partial.
 
-(* the same for the executable codec: the base64 hypothesis is proved (Json/JsonB64P.v); the
+(* the same for the executable codec: the base64 hypothesis is proved (Json/JsonB64RtP.v); the
    Timestamp / Duration string forms stay explicit hypotheses (they are the subject of C23) *)
 Theorem C20_json_roundtrip_std_except_F11_partial :
   forall (o : jopts) (S : schema) (nm : names) (lim fuel tid : nat) (v : value),
